@@ -659,7 +659,7 @@ func ruleC03FinishOrder(c *Ctx) {
 				o := calleeObj(info, x)
 				if v, ok := o.(*types.Var); ok && !v.IsField() {
 					// local function values: getSrc (parameter) and cleanup (from NewTapeWriter)
-					if v.Name() == "getSrc" || v.Name() == "cleanup" {
+					if isSourceCallback(v) || isCleanupVar(f, v) {
 						nodes = append(nodes, x)
 					}
 				}
